@@ -45,7 +45,7 @@ CLAIMS = {
          "Trusted: go/types, go/cfg, grpc-go interceptor chaining, grpc_middleware chain order; NullAuth/NullAccess accept everything.",
          "DESIGN.md §4 C05"),
  "C03": ("must-dataflow over go/cfg with interprocedural transformer summaries; key-codec typing over go/types AST",
-         "Decides structural necessary conditions for ALL mutation histories: (R1) in every mutating method of the embedded drivers (thorough: every driver) each path to a possibly-nil return that writes to the store also calls Timestamp.Touch, and GetTimestamp reads that Timestamp; (R2) a checked Validate/ValidateGraphName dominates every hand-over of a client element or graph name from the server to a driver; (R3) exact-key store operations receive full keys and prefix operations receive prefixes, key builders and parsers agree component-wise, and every query-visible key family written by an insert is deleted by the matching delete and by DeleteGraph. Does not decide last-write-wins, cascades beyond key families, or value-level equality with the abstract graph.",
+         "Decides structural necessary conditions for ALL mutation histories: (R1) in every mutating method of the embedded drivers (thorough: every driver) each path to a possibly-nil return that writes to the store also calls Timestamp.Touch, GetTimestamp reads that Timestamp, and the change token Touch writes comes from the nanosecond clock or a counter; (R2) a checked Validate/ValidateGraphName dominates every hand-over of a client element or graph name from the server to a driver; (R3) exact-key store operations receive full keys and prefix operations receive prefixes, key builders and parsers agree component-wise, and every query-visible key family written by an insert is deleted by the matching delete and by DeleteGraph. Does not decide last-write-wins, cascades beyond key families, or value-level equality with the abstract graph.",
          "Trusted: go/types, go/cfg; kvi Update/BulkWrite/View run their callback synchronously and return nil only if it did (checked for the drivers under C10); tables of store-write calls for the non-embedded drivers.",
          "DESIGN.md §4 C03"),
  "C04": ("atomic-unit grouping of store writes by key family (AST + go/types), mirror-field/constructor analysis, must-precede dataflow",
